@@ -157,6 +157,11 @@ def _quic(job):
     else:
         bad.append("no handshake / 1-RTT keys installed")
     ku = [e for e in evs if e["level"] == "ku"]
+    for e in ku:            # RFC 9001 6.1: a key update replaces packet-protection key and IV only -- the header-protection keys stay those of generation 0
+        for side, d in (("client", "c"), ("server", "s")):
+            got = e["keys"].get(f"{side}_application_hp")
+            if got is not None and got != c.app[d][0].hp.hex():
+                bad.append(f"{side}_application_hp after a key update: installed {got[:16]}.., RFC 9001 6.1 keeps {c.app[d][0].hp.hex()[:16]}.. (not updated)")
     if ku:
         gens = ku[-1]["keys"]["generations"]
         for g, gk in enumerate(gens):
